@@ -34,14 +34,23 @@ def s_tcp_data(vc):
     else:
         ev = vc.new("mitmproxy.proxy.events:DataReceived", connection=src, data=data)
     edited = vc.sym_bytes("edited")
+    # an addon may also restructure flow.messages in the hook (annotate, merge chunks): what is relayed for this event is
+    # the content of the message the layer recorded for it, not whatever happens to be last in the list afterwards
+    restructure = vc.case("addon_appends_another_message", [False, True]) if with_flow else False
+    decoy = vc.sym_bytes("decoy")
     hooks = []
+    own = []
 
     def on_yield(cmd):
         if is_cmd(cmd, "TcpMessageHook"):
             hooks.append(cmd)
             # an addon may replace the content of the latest message
             m = cmd.flow.messages[-1]
+            own.append(m)
             m.content = edited
+            if restructure:
+                extra = vc.new("mitmproxy.tcp:TCPMessage", from_client=from_client, content=decoy, timestamp=6.0)
+                (cmd.flow.messages.items if vc.mode == "sym" else cmd.flow.messages).append(extra)
         return None
 
     out = vc.call(T + ".relay_messages", layer, ev, on_yield=on_yield)
@@ -54,8 +63,9 @@ def s_tcp_data(vc):
         if len(tr) != 2:
             return
         vc.ensure("hook.flow", tr[0].flow is flow)
-        vc.ensure("recorded.once", len_(flow.messages) == 1)
+        vc.ensure("recorded.once", len_(flow.messages) == (2 if restructure else 1))
         m = flow.messages[0]
+        vc.ensure("recorded.is_the_message_shown_to_the_hook", len(own) == 1 and own[0] is m)
         vc.ensure("recorded.direction", vc.eq(m.from_client, from_client))
         vc.ensure("send.target", tr[1].connection is dst)
         vc.ensure("send.content_is_recorded_after_hook", And(tr[1].data == m.content, tr[1].data == edited))
